@@ -60,8 +60,25 @@ class CheckContext(object):
         if fi is not None:
             self.functions_analysed.add(fi.qual)
 
+    def advisory_scope(self):
+        """everything recorded inside the `with` block is advisory: printed
+        and counted, never a violation (used by the package-wide sweeps of
+        the thorough tier over code outside a property's anchors)"""
+        ctx = self
+
+        class _Scope(object):
+            def __enter__(self_):
+                ctx._advisory_depth = getattr(ctx, '_advisory_depth', 0) + 1
+
+            def __exit__(self_, *a):
+                ctx._advisory_depth -= 1
+                return False
+        return _Scope()
+
     def ob(self, rule, key, where, ok, detail='', witness=None,
            nontrivial=True, advisory=False):
+        if getattr(self, '_advisory_depth', 0) > 0:
+            advisory = True
         o = Obligation(rule, key, where, bool(ok), detail, witness,
                        nontrivial, advisory)
         if not o.ok:
